@@ -159,3 +159,15 @@ def run(facts, rep, ctx):
     or1(facts, rep)
     sb3(facts, rep)
     sb4(facts, rep)
+
+
+_run_before_round2 = run
+
+
+def run(facts, rep, ctx):
+    """rules added after the second round of independent seeding (rules/round2.py)"""
+    _run_before_round2(facts, rep, ctx)
+    from . import round2
+    if ctx.get('flavor') != 'nochk':
+        round2.po8(facts, rep)
+
